@@ -66,11 +66,31 @@ class Borda(Suite):
         n = 700 if tier == "quick" else 8000
         for _ in range(n):
             cases.append({"bid": rng.random() < 0.5, "s": borda_schemes(rng), "D": gen.random_dataset(rng, 8, 6)})
+        # datasets with a past (Borda ran, then one or two elements were removed in place): what is judged is Borda on the dataset as it is
+        for _ in range(80 if tier == "quick" else 1000):
+            D = gen.random_dataset(rng, 7, 5)
+            univ = sorted({e for r in D for b in r for e in b})
+            if len(univ) < 4:
+                continue
+            cases.append({"bid": rng.random() < 0.5, "s": rng.choice([gen.UNIFYING, gen.UNIFYING_HALF, gen.INDUCED]), "D": D,
+                          "warm": rng.sample(univ, rng.randint(1, 2))})
         return cases
 
     def run(self, case):
         ds = Dataset.from_raw_list([[set(b) for b in r] for r in case["D"]])
         sc = ScoringScheme(case["s"])
+        if case.get("warm"):
+            # the dataset has a past: Borda (and whatever it caches on the dataset) ran on it, then elements were removed IN PLACE;
+            # the answer judged below is the one on the dataset as it is now (observed after the removal)
+            try:
+                BordaCount(use_bucket_id=case["bid"]).compute_consensus_rankings(ds, sc, True)
+                ds.unified_rankings()
+            except Exception:
+                pass
+            try:
+                ds.remove_elements({e for e in ds.universe if e.value in case["warm"]})
+            except Exception:
+                pass
         out = {"D": gen.observe(ds), "complete": bool(ds.is_complete)}
         try:
             cons = BordaCount(use_bucket_id=case["bid"]).compute_consensus_rankings(ds, sc, True)
